@@ -302,6 +302,9 @@ def run(chk: Check, eng: Engine) -> None:
     chk.rule("R12-f", "values memoised on symbols, grammar nodes and converters do not depend on inputs their slot / key does not cover", floor=2)
     if memo_input_rule(chk, eng, "R12-f") < 2:
         raise AnalysisError("fewer than two memo idioms found on long-lived objects")
+    chk.rule("R12-g", "no function a parse request reaches is memoised by a decorator whose key leaves out something the function reads", floor=1)
+    from .common_memo import decorated_memo_rule
+    decorated_memo_rule(chk, eng, "R12-g", [f.fq for f in eng.ix.all_functions if f.cls is not None and f.cls.name == "Grammar" and f.name.startswith("parse")], "parse results")
     chk.rule("R12-a", "a parse-forest memo entry is published only after the producing loop is exhausted; only Parser writes the memo", floor=2)
     chk.rule("R12-b", "no tree object is both stored in the memo and handed out (collapse() results alias their argument)", floor=2)
     chk.rule("R12-c", "every IterativeParser attribute written while consuming input is reset by new_parse", floor=5)
